@@ -848,6 +848,25 @@ theorem parse_pdos_sdo_exact (od : OD) (eeprom : Cats) (ao ai : List PdoObj)
   simp [parsePdos, pdo_sdo_source_exact od _ _ ho, pdo_sdo_source_exact od _ _ hi,
     parse_ok _ _ _ hao, parse_ok _ _ _ hai]
 
+/-! ### `apply_eeprom`: the pieces fit together -/
+
+/-- **apply_eeprom_exact**: for every well-formed image whose sync-manager category 41 holds the
+records `es`: the registers at 0x800 are loaded with exactly those bytes, the areas are those of
+`sm_exact`, and the PDO layout is `parse_pdos` run on the decoded categories with the source
+chosen by the decoded mailbox areas. -/
+theorem apply_eeprom_exact (hdr : List UInt8) (cs : List Cat) (tail : List UInt8) (mode8 : Bool) (b : Bus) (od : OD)
+    (es : List SMEntry) (hh : hdr.length = 2 * catStart) (hok : ∀ c ∈ cs, c.ok) (hes : ∀ e ∈ es, e.ok)
+    (hsm : dictGet (dictOfFrom [] (cs.map fun c => (c.type, c.payload))) catSM = some (encSMs es)) :
+    let a := applyEeprom ⟨mkImage hdr cs tail, mode8⟩ b od
+    let cats := dictOfFrom [] (cs.map fun c => (c.type, c.payload))
+    a.res.eeprom = some cats ∧ a.smWritten = some (encSMs es) ∧ a.sm = some (smSpec es, true) ∧
+    a.pdos = (parsePdos (hasMailbox (smSpec es)) od cats).1 := by
+  have hre := read_eeprom_exact hdr cs tail mode8 b hh hok
+  simp only [applyEeprom, hre, hsm, sm_exact es hes]
+  simp only [Bool.not_true, Bool.false_eq_true, ↓reduceIte]
+  repeat' split
+  all_goals simp [hre]
+
 /-! ### non-vacuity: concrete inputs meet the hypotheses and exercise every branch -/
 
 /-- an EL1008-like table: 8 bit inputs, padding, then a 16-bit and a 32-bit value -/
